@@ -343,18 +343,19 @@ def _parse_object(
     # Keep the numeric suffix of de-duplicated class names (see `dedupe`), so
     # that serialized documents are parsed back to the same class names.
     base, _, suffix = title.rpartition("_")
-    if suffix.isdigit() and _title_format(base):
-        title = f"{_title_format(base)}_{suffix}"
-    else:
-        title = _title_format(title) or _title_format(
-            schema.get("_x_autotitle", "")
-        )
+    if not (re.fullmatch("[0-9]+", suffix) and _title_format(base)):
+        base, suffix = title, ""
+    title = _title_format(base) or _title_format(
+        schema.get("_x_autotitle", "")
+    )
     if not title:
         raise SchemaParseError.missing_title(schema)
     if title[0].isdigit():
         title = f"_{title}"
     if title in _RESERVED_TITLES:
         title = f"{title}_"
+    if suffix:
+        title = f"{title}_{suffix}"
     properties = schema.get("properties", {})
     declared = {prop.source for prop in properties.values()}
     for key in schema.get("required", []):
@@ -460,6 +461,9 @@ def _parse_attribute_name(name: str) -> str:
     first_chars = set(string.ascii_letters) | {"_"}
     if name[0] not in first_chars:
         name = f"_{name}"
+    while name.startswith("__") and not name.endswith("__"):
+        # Such names are mangled inside a class body.
+        name = name[1:]
     if name in RESERVED_PROPERTIES:
         name = f"{name}_"
     return name
